@@ -57,6 +57,10 @@ def relerr(a, b, scale: Optional[float] = None) -> float:
     """max|a-b| / max(scale, max|b|, tiny). NaN/Inf anywhere -> inf. Shape mismatch -> inf."""
     a = np.asarray(a)
     b = np.asarray(b)
+    if a.dtype == bool:
+        a = a.astype(float)
+    if b.dtype == bool:
+        b = b.astype(float)
     if a.shape != b.shape:
         try:
             a, b = np.broadcast_arrays(a, b)
